@@ -33,6 +33,12 @@ Theorem C13_s5f5_lists_requested : forall t ids, ids <> [] ->
 Proof. exact list_alarms_rows. Qed.
 Print Assumptions C13_s5f5_lists_requested.
 
+(* the library's status variables AlarmsEnabled and AlarmsSet report exactly the alarms that are enabled / set at that moment *)
+Theorem C13_alarm_status_variables : forall t,
+  snd (ed_step t DReqAlarmSVs) = DAlarmLists (map fst (filter (fun p => al_enabled (snd p)) (alarms t))) (map fst (filter (fun p => al_set (snd p)) (alarms t))).
+Proof. exact alarm_svs_current. Qed.
+Print Assumptions C13_alarm_status_variables.
+
 (* non-vacuity *)
 Definition tab1 : dtab :=
   {| svs := [(IdN 10, {| sv_name := "a"; sv_unit := "mm"; sv_value := 5 |}); (IdS "sx", {| sv_name := "b"; sv_unit := ""; sv_value := 7 |})];
